@@ -39,6 +39,7 @@ def PT(*ps):
 
 
 LITS = [0, 1, 2, 3, -1, F(1, 2), F(3, 2), F(-5, 4), F(1, 4), 5]
+MULS = [F(1, 2), -1, 2, F(3, 2), F(-1, 4)]
 CLASH = ['t', 'n', 'm', 'i', 'j', 'acc', 'b', '_src', '_i', 't1', 'i1']
 
 
@@ -77,10 +78,13 @@ class LoopGen:
         if d <= 0 or r.random() < 0.3:
             return self.leaf(sc)
         c = r.random()
+        if c < 0.55:
+            return Node('op2', r.choice(['add', 'sub', 'add']), self.expr_R(sc, d - 1), self.expr_R(sc, d - 1))
         if c < 0.7:
-            return Node('op2', r.choice(['add', 'sub', 'mul', 'add']), self.expr_R(sc, d - 1), self.expr_R(sc, d - 1))
+            # products always have a small literal factor (values stay small under REAL)
+            return Node('op2', 'mul', self.expr_R(sc, d - 1), lit(r.choice(MULS)))
         if c < 0.8:
-            return Node('op3', 'fma', self.leaf(sc), self.leaf(sc), self.expr_R(sc, d - 1))
+            return Node('op3', 'fma', self.leaf(sc), lit(r.choice(MULS)), self.expr_R(sc, d - 1))
         if c < 0.88:
             a = self.expr_R(sc, d - 1)
             return Node('op1', 'fabs' if a.k == 'num' else 'neg', a)
@@ -110,7 +114,10 @@ class LoopGen:
             c = r.random()
             if c < 0.32 and outer:
                 x = r.choice(outer)
-                out.append(Node('assign', PV(x), Node('op2', r.choice(['add', 'sub', 'mul']), V(x), self.expr_R(sc, 1))))
+                if r.random() < 0.25:
+                    out.append(Node('assign', PV(x), Node('op2', 'mul', V(x), lit(r.choice(MULS)))))
+                else:
+                    out.append(Node('assign', PV(x), Node('op2', r.choice(['add', 'sub']), V(x), self.expr_R(sc, 1))))
                 self.features.add('reassign-outer')
             elif c < 0.42 and outer:
                 x = r.choice(outer)
@@ -166,7 +173,7 @@ class LoopGen:
             return PV(x), Node('slice', V(xs), None, None), {x: 'R'}, 'for-slice'
         if kind == 'comp':
             e = self.fresh('e')
-            return PV(x), Node('comp', [(PV(e), V(xs))], Node('op2', 'mul', V(e), self.leaf(sc))), {x: 'R'}, 'for-comp'
+            return PV(x), Node('comp', [(PV(e), V(xs))], Node('op2', 'mul', V(e), lit(r.choice(MULS)))), {x: 'R'}, 'for-comp'
         if kind == 'zip':
             c = r.random()
             if c < 0.5:
@@ -277,7 +284,7 @@ class LoopGen:
         if elt_ty == 'R' and r.random() < 0.15:
             # a nested comprehension that shadows a target
             sh = r.choice(list(new))
-            elt = Node('sum', Node('comp', [(PV(sh), V(ys))], Node('op2', 'mul', V(sh), self.leaf(sc))))
+            elt = Node('sum', Node('comp', [(PV(sh), V(ys))], Node('op2', 'mul', V(sh), lit(r.choice(MULS)))))
             self.features.add('comp-shadow')
         return Node('comp', gens, elt)
 
